@@ -856,6 +856,15 @@ class PathCtx:
             if _sys.exc_info()[0] is None:
                 raise PathEnd()
 
+    # -- exceptions leaving a scoped block ---------------------------------------
+    def check_exception_now(self, e):
+        """An exception is about to leave a scoped (generic) block: its contract clause must be discharged here,
+        while the scoped hypotheses are still in force."""
+        chk = getattr(self, "exc_checker", None)
+        if chk is not None and not getattr(e, "checked", False):
+            chk(e)
+            e.checked = True
+
     # -- ghost effect trace -----------------------------------------------
     def effect(self, kind, *info):
         self.effects.append((kind,) + tuple(info))
